@@ -45,6 +45,9 @@ class Outcome:
     dec_only: bool = False
 
 
+CURRENT: list[Any] = [None]  # the engine whose exploration is running (for stdlib models that need to fork / raise)
+
+
 class Engine:
     """State shared by the AST evaluator.  Subclassed in interp.py."""
 
@@ -221,12 +224,15 @@ class Engine:
     def explore(self, thunk: Callable[[], Any]) -> list[Outcome]:
         ex = Explorer(self)
         self.explorers.append(ex)
+        prev = CURRENT[0]
+        CURRENT[0] = self
         try:
             outs = ex.run(thunk)
             self.last_dropped = ex.dropped
             return outs
         finally:
             self.explorers.pop()
+            CURRENT[0] = prev
 
     def summarize(self, key: Any, thunk: Callable[[], Any], ident: Any = None) -> Any:
         """Explore `thunk` exhaustively under the current pc, merge the outcomes, and continue the current
